@@ -147,7 +147,7 @@ def h_summary() -> bool:
     if lst is not None and len(lst) == 1 and len(docs) == 1:
         s = list(lst.values())[0]
         d = docs[0]
-        conds += [doc_eq(s["SRC"], d["Primary SRC"]["Reference Code"]), doc_eq(s["PLID"], d["Private Header"]["Platform Log Id"]),
+        conds += [doc_eq(s.get("SRC"), d["Primary SRC"]["Reference Code"]), doc_eq(s["PLID"], d["Private Header"]["Platform Log Id"]),
                   doc_eq(s["CreatorID"], d["Private Header"]["Creator Subsystem"]), doc_eq(s["Subsystem"], d["User Header"]["Subsystem"]),
                   doc_eq(s["Commit Time"], d["Private Header"]["Committed at"]), doc_eq(s["Sev"], d["User Header"]["Event Severity"]),
                   doc_eq(s["CompID"], d["Private Header"]["Created by"]),
